@@ -8,6 +8,7 @@ def drawV : Draw → V
   | .shuffle n => list [atom "sh", ofNat n]
   | .choice n k => list [atom "ch", ofNat n, ofNat k]
   | .permutation n => list [atom "pm", ofNat n]
+  | .integers lo hi => list [atom "in", ofNat lo, ofNat hi]
 
 def optNat? : V → Option (Option Nat)
   | atom "none" => some none
@@ -27,6 +28,16 @@ def opPlan : List V → Option V
       let sm ← optNat? sm
       let fs ← toList? (toList? toNat?) fs
       let main := mainDraws p sm fs
+      if !feasible main then some (atom "reject-choice") else
+      let k := if p then 0 else nFolds fs
+      some (list [ofList drawV main, ofList (fun j => ofList drawV (fitDraws sm fs j)) (List.range k)])
+  -- second pass: `determplan <model=None> <pretrained> <subset_max_train|none> [[fold sizes]…]` (`mainDrawsOf`)
+  | [dm, p, sm, fs] => do
+      let dm ← toBool? dm
+      let p ← toBool? p
+      let sm ← optNat? sm
+      let fs ← toList? (toList? toNat?) fs
+      let main := mainDrawsOf dm p sm fs
       if !feasible main then some (atom "reject-choice") else
       let k := if p then 0 else nFolds fs
       some (list [ofList drawV main, ofList (fun j => ofList drawV (fitDraws sm fs j)) (List.range k)])
@@ -70,10 +81,47 @@ def opLoop : List V → Option V
       some (ofList (fun e => list [ofStr e.1, ofList ofStr e.2]) r)
   | _ => none
 
+/-- a generator whose state is the list of requests made on it so far and whose values are that history: the
+driver answers "on which generator, after which earlier requests" for every shuffle (the harness replays the
+history on an independent numpy generator) -/
+def traceGen : Gen (List Draw) (List Draw) := { step := fun s d => (s, s ++ [d]) }
+
+/-- `determconf <fasta has decoys> <seed|gen> <unique target peptides of the FASTA> [rows with a group, per collection]`
+→ `[[request, [requests made before it on the same generator]] …] [requests on the caller's generator at the end]` -/
+def opConf : List V → Option V
+  | [hd, form, nt, rows] => do
+      let hd ← toBool? hd
+      let form ← toStr? form
+      let nt ← toNat? nt
+      let rows ← toList? toNat? rows
+      let arg : Option (SeedArg (List Draw)) :=
+        if form == "seed" then some (.seed []) else if form == "gen" then some .gen else none
+      let arg ← arg
+      let ds := confDraws hd nt rows
+      let r := runSeeded traceGen arg [] ds
+      some (list [ofList (fun x => list [drawV x.1, ofList drawV x.2]) (ds.zip r.1), ofList drawV r.2])
+  | _ => none
+
+/-- `determcv <default|built>` → `[entropy|model-seed|brew-generator, request, [requests made on brew's generator
+before its fold shuffles]]`: on which generator, and by which request, the cross-validation seed of the model that
+`brew` trains is drawn (`modelCvSeed`, `brewStart` on the trace generator) -/
+def opCv : List V → Option V
+  | [m] => do
+      let m ← toStr? m
+      let arg : Option (ModelArg (List Draw)) :=
+        if m == "default" then some .default else if m == "built" then some (.built []) else none
+      let arg ← arg
+      -- histories that tell the three generators apart: entropy `[in 0 0]`, brew's generator `[in 0 1]`, the model's `[]`
+      let h := modelCvSeed traceGen [Draw.integers 0 0] [Draw.integers 0 1] arg
+      let s := brewStart traceGen [Draw.integers 0 1] arg
+      some (list [atom (if h.isEmpty then "model-seed" else if h == [Draw.integers 0 0] then "entropy" else "brew-generator"),
+                  drawV (Draw.integers 1 1000000), ofList drawV (s.drop 1)])
+  | _ => none
+
 end Mk.Ops.Determ
 
 namespace Mk.Ops
 open Mk.Ops.Determ
 def determOps : List (String × (List V → Option V)) :=
-  [("determplan", opPlan), ("determpool", opPool), ("determloop", opLoop)]
+  [("determplan", opPlan), ("determpool", opPool), ("determloop", opLoop), ("determconf", opConf), ("determcv", opCv)]
 end Mk.Ops
